@@ -15,7 +15,8 @@ THEOREMS = ['Fsic.C05.' + n for n in [
     'mem_periodRange', 'periodRange_eq', 'periodRange_reversed', 'solveList_nil', 'solveList_step',
     'solveList_eq_seq', 'solve_failure_containment', 'later_periods_untouched', 'solve_min_gt_max',
     'solve_bad_label', 'solve_empty_span', 'solve_explicit', 'solve_default_range', 'solvePeriod_spec',
-    'defaults_agree', 'solveList_history_irrelevant', 'solve_history_irrelevant']] + ['Fsic.solveList_append', 'Fsic.solveT_series_frame', 'Fsic.solveT_lengths']
+    'defaults_agree', 'solveList_history_irrelevant', 'solve_history_irrelevant', 'solveT_flag_status',
+    'solve_flags_match_statuses', 'solveList_flags_match']] + ['Fsic.solveList_append', 'Fsic.solveT_series_frame', 'Fsic.solveT_lengths']
 RULE = ('scripted multi-period models (span length 0..5, lags/leads 0..2) with a per-period script; every (start, end) '
         'pair over labels + an absent label + None incl. reversed and boundary pairs; span types range (origin 2000 and 0), mixed hashables incl. falsy labels, '
         'list of str, NumPy int/str arrays, pandas Index, annual and quarterly PeriodIndex, DatetimeIndex; option sets of '
